@@ -162,6 +162,13 @@ fn oracle_int(op: &str, a: i64, b: i64) -> Exp {
     }
 }
 
+/// the language can only produce the quiet NaN (`0.0/0.0`); a signalling NaN from the random bit
+/// patterns is replaced by it, so that the value in the program text, the value handed to the
+/// host API and the oracle's operand are one and the same (pow(sNaN, 0) and pow(qNaN, 0) differ)
+fn quiet(f: f64) -> f64 {
+    if f.is_nan() { f64::NAN } else { f }
+}
+
 fn oracle_float(op: &str, a: f64, b: f64) -> Exp {
     let f = |v: f64| Exp::Float(float_bits(v));
     match op {
@@ -363,8 +370,8 @@ impl Property for C08Prop {
             }
             "float" => {
                 let (a, b) = (
-                    f64::from_bits(case["a"].as_u64().unwrap()),
-                    f64::from_bits(case["b"].as_u64().unwrap()),
+                    quiet(f64::from_bits(case["a"].as_u64().unwrap())),
+                    quiet(f64::from_bits(case["b"].as_u64().unwrap())),
                 );
                 classes_float(a, b, &mut classes);
                 let ret = if is_cmp(op) { "bool" } else { "float" };
@@ -428,7 +435,7 @@ impl Property for C08Prop {
                 )
             }
             "float1" => {
-                let a = f64::from_bits(case["a"].as_u64().unwrap());
+                let a = quiet(f64::from_bits(case["a"].as_u64().unwrap()));
                 classes_float(a, 1.0, &mut classes);
                 let function = "(a: float) -> float { return -a; }".to_string();
                 (
